@@ -628,7 +628,10 @@ def t_linear(b, n, rng):
         _ = b.gradient(A + "T", u)
         b.bound(b.sq(u), 1.0)
     b.bound(b.sq(x0), 1.0, how="initial")
-    b.metric(b.sq(ys[-1]))
+    if cls == "SkewSymmetricLinearOperator" and rng.random() < 0.5:
+        b.metric(b.inner(x0, ys[0]))     # <x, Ax>: zero for every skew-symmetric operator
+    else:
+        b.metric(b.sq(ys[-1]))
     b.info.update(template="linear", cls=cls, f=A, x0=x0, xn=x, main_f=A)
 
 
